@@ -38,7 +38,12 @@ def loc_from_intervals(ivs):
 
 
 def make_protocluster(core_ivs, extent_ivs, product: str, cutoff: int = 10, neighbourhood: int = 10,
-                      rule: str = "rule", category: str = "cat"):
+                      rule: str = "rule", category: str = "cat", sideloaded: bool = False):
+    if sideloaded:
+        # as the sideloader builds them: no detection rule, never any defining gene
+        from antismash.common.secmet.features.protocluster import SideloadedProtocluster
+        return SideloadedProtocluster(loc_from_intervals(core_ivs), loc_from_intervals(extent_ivs), "verif-side", product,
+                                      neighbourhood_range=neighbourhood)
     return Protocluster(loc_from_intervals(core_ivs), loc_from_intervals(extent_ivs), "verif", product,
                         cutoff, neighbourhood, rule, product_category=category)
 
